@@ -11,7 +11,7 @@ RULE = (
     "enumerated part: every simplicial complex on the vertex sets {0..n-1}, n <= 4 (all downward-closed families of "
     "simplices with >= 2 nodes, with and without explicit single-node simplices) x the default orientation + 16 drawn "
     "orientation assignments (quick) or all 2^k assignments (thorough); generated part: complexes on <= 7 vertices with "
-    "int / negative / float / string / mixed int-and-string labels, explicit simplex IDs and drawn orientations. Oracle "
+    "int / negative / float / string / mixed int-and-string labels (incl. numbers whose string order differs from their numeric order), explicit simplex IDs and drawn orientations given as ints, Python bools, numpy bools or numpy ints. Oracle "
     "for k = 1..dim+1: each column of B_k has exactly k+1 non-zeros, all +-1, at the faces of that simplex (through the "
     "index maps); B_k B_{k+1} = 0 exactly; every Hodge Laplacian symmetric PSD; dim ker L_0 = number of components "
     "computed by the harness. non-trivial = the complex has a simplex of order >= 2 and a non-default orientation"
